@@ -178,6 +178,26 @@ def float_mid_decimals():
     return out
 
 
+def gcd_worst_case_decimals():
+    """coefficients on which a binary (Stein) gcd against 5^n takes the most subtract-and-shift steps: built
+    backwards, v_k = 2 * v_(k+1) + 5^n, so that every step removes exactly one bit"""
+    out = []
+    for n in range(1, 19):
+        w = 5 ** n
+        for start in (1, 3, 7, 11, 13, w, w + 2, 3 * w, 5 * w + 4):
+            v = start | 1
+            seq = []
+            while 2 * v + w <= oracle.I128_MAX:
+                v = 2 * v + w
+                seq.append(v)
+            for c in seq[-3:]:
+                for mult in (1, 2, 4):
+                    if c * mult <= oracle.I128_MAX:
+                        out.append('d:%d:%d' % (c * mult, n))
+                        out.append('d:%d:%d' % (-c * mult, n))
+    return out
+
+
 def aligned_pairs(lk, rk, rng):
     """operand pairs whose alignment to the larger scale lands on / next to the i128 boundary or a power of ten
     (the region where a wrong bound in a scaling helper shows)"""
@@ -391,6 +411,8 @@ def _search(pid, r, d, key, tier, seed, profile_pair=None, budget=None, combos=N
                 rs = operands(rk, rng, 60) if rk else ['-']
                 if op in ('into_f32', 'into_f64'):
                     ls = float_mid_decimals() + ls
+                if op in ('ratio', 'numerator', 'denominator', 'hash_is_ratio_hash'):
+                    ls = gcd_worst_case_decimals() + ls
                 # the thread default rounding mode is an input of every operation (a result that must not
                 # depend on it is compared under the default and under one other mode)
                 modes = oracle.MODES if (op in ROUNDING_OPS or (op[-3:] in ('_rr', '_rv', '_vr') and op[:-3] in ROUNDING_OPS)) else ['RoundHalfEven', rng.choice([m_ for m_ in oracle.MODES if m_ != 'RoundHalfEven'])]
